@@ -10,6 +10,8 @@ import time
 
 REPO = os.environ.get("VERIF_REPO", "/repo")
 VERIF = os.path.dirname(os.path.dirname(os.path.abspath(__file__)))
+# where evidence/ and replays/ are written; redirected when a check is pointed at a scratch tree
+OUT = os.environ.get("VERIF_OUT", VERIF)
 SEED = int(os.environ.get("VERIF_SEED", "0") or 0)
 CAPTURE = os.path.join(REPO, "tests", "test_files", "2838~aa~Walking 01.tdf")
 
